@@ -9,6 +9,11 @@ Theorem C18_auto_is_coarser src_area ref_area :
   let p := resolve PAuto src_area ref_area in
   (src_area <= area_of p src_area ref_area /\ ref_area <= area_of p src_area ref_area)%Q /\ p <> PAuto.
 Proof. exact (auto_is_coarser src_area ref_area). Qed.
+(* what the correspondence accepts as the observed grid is sound for the statement (on an exact tie both images are "the coarser") *)
+Theorem C18_observed_grid_sound a b obs : resolve_ok PAuto a b obs = true -> (a <= area_of obs a b /\ b <= area_of obs a b)%Q /\ obs <> PAuto.
+Proof. exact (resolve_ok_sound a b obs). Qed.
+Theorem C18_model_grid_accepted req a b : resolve_ok req a b (resolve req a b) = true.
+Proof. exact (resolve_ok_self req a b). Qed.
 Theorem C18_explicit_is_kept req a b : req <> PAuto -> resolve req a b = req.
 Proof. exact (explicit_is_kept req a b). Qed.
 Print Assumptions C18_auto_is_coarser.
